@@ -171,15 +171,9 @@ def channel_step_rows(repo, col, R):
         col.check(arr.op == "sub" and arr.args[0].op == "param" and arr.args[0].name == "states" and arr.args[1].key() == k.key(), R, fi,
                   "the array updated is the state of the key being stored", "states[key] = states[key].at[...]",
                   f"`{unparse(s_.node)[:80]}` stores an update of `{arr.short(40)}` under key `{k.short(30)}`", node=s_.node)
-        # (key, value) of one entry of the result of update_states
-        res_k = T.find(k, lambda x: x.op == "mcall" and x.name == "update_states")
-        pair = val is not None and res_k is not None and k.op == "item" and k.name == 0 and (
-            (val.op == "sub" and val.args[1].key() == k.key() and T.find(val.args[0], lambda x: x.op == "mcall" and x.name == "update_states") is not None)
-            or (val.op == "item" and val.name == 1 and val.args[0].key() == k.args[0].key()))
-        # `for key in updated: ... updated[key]` (iterating a dictionary yields its keys; also .keys())
-        if not pair and val is not None and k.op == "elem" and val.op == "sub" and val.args[1].key() == k.key():
-            d_ = k.args[0].args[0] if (k.args[0].op == "mcall" and k.args[0].name == "keys") else k.args[0]
-            pair = d_.key() == val.args[0].key() and d_.op == "mcall" and d_.name == "update_states"
+        # (key, value) of one entry of the result of update_states, however the loop over the result is written
+        D_ = idx.dict_entry(k, val) if val is not None else None
+        pair = D_ is not None and D_.op == "mcall" and D_.name == "update_states"
         col.check(bool(pair), R, fi, "each returned state is stored under its own name", "for key, val in updated.items()",
                   f"key `{k.short(40)}` / value `{val.short(40) if val is not None else None}` are not the (key, value) pairs of update_states' result",
                   node=s_.node)
